@@ -123,3 +123,28 @@ def lhs_partial_write_over_duplicate_cat(v):
     d = v.get("detail", {})
     t = d.get("target")
     return bool(t) and d.get("deviates") == "circuit" and _partial_over_dup_cat(t)
+
+
+def _has_dimensioned_subsignature_with_port(ir):
+    def has_port(sig):
+        return any(m[3] == "port" or has_port(m[4]) for m in sig["members"])
+    for name, flow, dims, kind, payload in ir["members"]:
+        if kind == "sig":
+            if dims and has_port(payload):
+                return True
+            if _has_dimensioned_subsignature_with_port(payload):
+                return True
+    return False
+
+
+@predicate
+def connect_array_of_subinterfaces(v):
+    """F16: connect() walks SignatureMembers.flatten(), whose paths carry no indices for signature
+    members with dimensions, and then does getattr(<list>, name): any port nested inside an array of
+    sub-interfaces makes connect() raise AttributeError although every interface is compliant."""
+    d = v.get("detail", {})
+    mech = v.get("mechanism", "")
+    ir = d.get("signature")
+    return mech.startswith("exception:connect") and mech.endswith(":AttributeError") and \
+        "'list' object has no attribute" in str(d.get("exception", "")) and \
+        bool(ir) and _has_dimensioned_subsignature_with_port(ir)
